@@ -31,6 +31,21 @@ var commonAssumptions = []string{
 }
 
 var plans = map[string]Plan{
+	"C05": {
+		Stages: []Stage{
+			{Harness: "hbits", Config: "benign", Quick: 1200, Thorough: 60000, QuickSec: 70, ThoroughSec: 1200, MemGB: 8},
+			{Harness: "hbits", Config: "errors", Quick: 1200, Thorough: 40000, QuickSec: 40, ThoroughSec: 600, MemGB: 8},
+		},
+		Rule: "one run = the whole of fq on one corpus sample (<= 24 KiB, the format and -o options its .fqtest command line names) with a tape-chosen bits_format, read-ahead size in {1,7,64,4096,512Ki} and progress precision in {1,16,1024}, a scheduler policy, and a simulated disk giving short reads, zero reads and latency (config errors: also transient/persistent EIO); the program lists for up to 120 or 1500 values path, range, buffer root and the rendering of tobytes and tobits under that bits_format, or writes tobytes of the root / of a byte aligned value raw; oracle (harness side, from the stored bytes): tobytes = bits[start:stop] left padded to a byte, tobits the same bits right padded when rendered as bytes, each of hex/base64/md5/snippet/byte_array/truncate/string recomputed with the Go standard library, raw root = the stored file; under error faults equality or a reported error, never a crash; values inside nested buffers and synthetic values are counted and skipped; distinct = distinct (sample, format, bits_format, schedule) fingerprint; non-trivial = at least one value compared",
+		Real: []string{"the whole of fq through interp.New/Main/Stop", "the real open stack ctxreadseeker -> progressreadseeker -> aheadreadseeker -> IOBitReadSeeker with knobs", "all format decoders the samples need"},
+		Stub: []string{"operating system: file system and disk with fault injection (simos), terminal", "scheduler"},
+		Assumptions: append([]string{
+			"content of values inside nested buffers (decompressed, reassembled) is not compared here; C15 checks nested content independently",
+			"the size prefix of the snippet rendering is not compared, only the encoded bits",
+			"runs of U+FFFD are collapsed before comparing string renderings of invalid UTF-8",
+		}, commonAssumptions...),
+		ExpectProbes: []string{"values_checked", "unaligned_values", "nested_buffer_values_skipped", "disk_short_read", "disk_zero_read", "disk_eio_transient", "disk_eio_persistent", "value_failed_after_fault", "runs_with_error_fault"},
+	},
 	"C17": {
 		Stages: []Stage{
 			{Harness: "hcli", Config: "default", Quick: 2400, Thorough: 80000, QuickSec: 75, ThoroughSec: 1500, MemGB: 8},
@@ -50,6 +65,8 @@ var plans = map[string]Plan{
 		Stages: []Stage{
 			{Harness: "hio", Config: "benign", Quick: 30000, Thorough: 3000000, QuickSec: 70, ThoroughSec: 1200},
 			{Harness: "hio", Config: "errors", Quick: 15000, Thorough: 1500000, QuickSec: 40, ThoroughSec: 600},
+			// system tier: the stack fq's open really builds, read lazily by tobytes/tobits
+			{Harness: "hbits", Config: "benign", Quick: 400, Thorough: 20000, QuickSec: 40, ThoroughSec: 500, MemGB: 8},
 		},
 		Rule: "one run = a tape-drawn reader composition (in-memory bit reader, zero reader, file stack IOBitReadSeeker(ahead?(progress?(ctx?(simulated disk)))) bare or clamped by bitiox.Range, section, multi, clone, byte round trip IOBitReadSeeker(IOReadSeeker(x)), limit) and 10..70 operations on it and its clones (ReadBits, ReadBitsAt, SeekBits start/current/end, ReadFull/ReadAtFull, clone, IOReader/IOReadSeeker byte views with 1..512 byte buffers, bitio.Copy into Buffer and IOBitWriter+Flush) while the simulated disk returns short reads, zero reads, latency and (config errors) transient/persistent EIO and the context is cancelled at a tape-chosen step; oracle: a reference bit-string model per node - count in range, no bit beyond the logical end, returned bits equal the model, EOF only at the logical end, seek results equal the model, byte views and writers equal the model zero padded; under error-class faults an operation may fail but never return wrong bits, and no call blocks forever; distinct = distinct (schedule, operation log) fingerprint; non-trivial = at least three operations executed",
 		Real: []string{"pkg/bitio (all readers, adapters, writer)", "internal/bitiox", "internal/aheadreadseeker", "internal/progressreadseeker", "internal/ctxreadseeker (statement-level yields, simulated channel rendezvous)"},
